@@ -79,6 +79,7 @@ def check_property(prop, tier, seed):
     solver_ms = 0
     canary_info = []
     errors_other = []
+    undecided = []
     for unit in units:
         res = D.run_unit(unit, tier)
         can = D.run_canary(res, tier)
@@ -103,6 +104,8 @@ def check_property(prop, tier, seed):
         for fn, fi in info.items():
             if fi['extern']:
                 continue
+            if fi.get('degraded') and (prop in fi['props'] or prop == 'C01' or any(o['fn'] == fn for o in mine.values())):
+                undecided.append('%s: %s' % (fn, fi['degraded']))
             if prop in fi['props'] or prop == 'C01':
                 mine['%s/safety' % fn] = dict(fn=fn, sec='body', label='safety', clauses=['no overflow/underflow, no reachable panic!/unwrap/expect failure, every callee precondition holds, indices in bounds'])
         # errors that map to an obligation nobody declared (unlabelled ghost text): attribute to the function
@@ -114,7 +117,9 @@ def check_property(prop, tier, seed):
         for oid, ob in sorted(mine.items()):
             fr = res['fres'].get(ob['fn'])
             es = errs_by_ob.get(oid, [])
-            if es:
+            if (info.get(ob['fn']) or {}).get('degraded'):
+                status = 'UNDECIDED'
+            elif es:
                 status = 'FAILED'
                 failing.append(dict(unit=unit, obligation=oid, errors=es, fn=ob['fn'], source=info.get(ob['fn'], {}).get('text', '')))
             else:
@@ -196,6 +201,7 @@ def check_property(prop, tier, seed):
             vacuity_guards=canary_info,
             solver_time_ms=solver_ms,
             failing_obligations=[dict(obligation=f['obligation'], known=(f not in violations)) for f in failing],
+            undecided_functions=sorted(set(undecided)),
             failing_elsewhere_not_counted=[e['obligation'] for e in errors_other][:50],
             explanation=PROP_NOTES.get(prop, ''),
         ),
@@ -208,9 +214,14 @@ def check_property(prop, tier, seed):
         print(l)
     for l in out_lines:
         print(l)
-    print('%s: %d/%d obligations discharged (%d known findings, %d violations) in %.1fs'
-          % (prop, discharged, len(all_obl), len(known_lines), len(violations), time.time() - t0))
-    return 1 if violations else 0
+    print('%s: %d/%d obligations discharged (%d known findings, %d violations, %d undecided) in %.1fs'
+          % (prop, discharged, len(all_obl), len(known_lines), len(violations), sum(1 for o in all_obl if o['status'] == 'UNDECIDED'), time.time() - t0))
+    if violations:
+        return 1
+    if undecided:
+        print('UNDECIDED property=%s: function(s) outside the verifier\'s reach on this tree (contract assumed, obligations not decided): %s' % (prop, '; '.join(sorted(set(undecided)))))
+        return 2
+    return 0
 
 
 GLOBAL_ASSUMPTIONS = [
